@@ -215,7 +215,7 @@ func randomGraph(r *rand.Rand, s gen.Space) []node {
 func TestCheck(t *testing.T) {
 	run := ev.Start(t, "C02", "exploration")
 	var jobs []job
-	reps := run.Pick(2, 6)
+	reps := run.Pick(2, 12)
 	for name, nodes := range shapes {
 		for _, noFwd := range []bool{false, true} {
 			permutations(len(nodes), func(p []int) {
@@ -226,7 +226,7 @@ func TestCheck(t *testing.T) {
 		}
 	}
 	run.Set("exhaustive_orders_of_small_graphs", len(jobs)/reps)
-	nRand := run.Pick(1500, 40000)
+	nRand := run.Pick(1500, 100000)
 	for i := 0; i < nRand; i++ {
 		id := fmt.Sprintf("rand-%d#0", i)
 		r := run.Rand("graph:" + id)
